@@ -1,6 +1,8 @@
 import PlumVerif.Generated.Consts
 import PlumVerif.Model.Basic
 import PlumVerif.Model.ParamTables
+import PlumVerif.Model.DecodeParams
+import PlumVerif.Model.DecodeMisc
 /-
 C07 — which controller slot a named parameter was read from and which slot its set request
 addresses.  Model of (as the code is NOW, after fix a46bd66):
@@ -84,157 +86,61 @@ def updateOnly (old ds : DS) (new : Entry) : DS :=
 def newEntry (k : TKind) (d : Gen.Desc) (pos : Nat) (t : Triple) (devIndex offset : Nat) : Entry :=
   ⟨d.name, k, d.switch, pos, t, devIndex, offset, d.size⟩
 
-/-! ### decoders -/
+/-! ### decoders
 
-/-- `unpack_parameter(data, offset, size)`: `None` when the 3·size bytes (as far as present) are
-all 0xFF — in particular when nothing is left -/
-def unpack (msg : List Byte) (off size : Nat) : Option Triple :=
-  if ((msg.drop off).take (3 * size)).all (· == 255) then none
-  else some ⟨decodeLE ((msg.drop off).take size), decodeLE ((msg.drop (off + size)).take size),
-             decodeLE ((msg.drop (off + 2 * size)).take size)⟩
+The payload decoders are C05's (`Model/DecodeParams.lean`, `Model/DecodeMisc.lean`, namespace `P2`,
+round trips proved in Props/C05Params.lean): the dataset model consumes exactly what they produce. -/
 
-/-- `count` consecutive 3-byte slots from `off`, positions `pos, pos+1, …`; holes are skipped -/
-def decodeBlock (msg : List Byte) : Nat → Nat → Nat → List (Nat × Triple)
-  | _, _, 0 => []
-  | off, pos, n + 1 =>
-    (match unpack msg off 1 with | some t => [(pos, t)] | none => []) ++ decodeBlock msg (off + 3) (pos + 1) n
-
-/-- EcomaxParametersStructure.decode: `[_, start, count] ++ slots`; `none` = IndexError -/
-def decodeEcomax (msg : List Byte) : Option (List (Nat × Triple)) := do
-  let start ← msg[1]?
-  let count ← msg[2]?
-  pure (decodeBlock msg 3 start.toNat count.toNat)
-
-def decodeMixerBlocks (msg : List Byte) (start count : Nat) : Nat → Nat → Nat → List (Nat × List (Nat × Triple))
-  | _, _, 0 => []
-  | off, m, n + 1 =>
-    let items := decodeBlock msg off start count
-    (if items.isEmpty then [] else [(m, items)]) ++ decodeMixerBlocks msg start count (off + 3 * count) (m + 1) n
-
-/-- MixerParametersStructure.decode: `[_, start, count, mixers] ++ mixers × count slots`;
-mixers without any defined parameter are left out -/
-def decodeMixers (msg : List Byte) : Option (List (Nat × List (Nat × Triple))) := do
-  let start ← msg[1]?
-  let count ← msg[2]?
-  let mixers ← msg[3]?
-  pure (decodeMixerBlocks msg start.toNat count.toNat 4 0 mixers.toNat)
-
-/-- slots of one thermostat: widths come from the description of each position; a position
-without description raises IndexError (`none`) -/
-def decodeTBlock (msg : List Byte) (tbl : List Gen.Desc) : Nat → Nat → Nat → Option (List (Nat × Triple) × Nat)
-  | off, _, 0 => some ([], off)
-  | off, pos, n + 1 =>
-    match tbl[pos]? with
-    | none => none
-    | some d =>
-      match decodeTBlock msg tbl (off + 3 * d.size) (pos + 1) n with
-      | none => none
-      | some (rest, o) => some ((match unpack msg off d.size with | some t => [(pos, t)] | none => []) ++ rest, o)
-
-def decodeTBlocks (msg : List Byte) (tbl : List Gen.Desc) (start per : Nat) :
-    Nat → Nat → Nat → Option (List (Nat × List (Nat × Triple)))
-  | _, _, 0 => some []
-  | off, t, n + 1 =>
-    match decodeTBlock msg tbl off start per with
-    | none => none
-    | some (items, o) =>
-      match decodeTBlocks msg tbl start per o (t + 1) n with
-      | none => none
-      | some rest => some ((if items.isEmpty then [] else [(t, items)]) ++ rest)
+/-- a decoded `(value, min, max)` -/
+def tr (t : P2.Triple) : Triple := ⟨t.1, t.2.1, t.2.2⟩
 
 /-- slots per thermostat as the decoder reads them: positions `start .. (start+count)//T - 1` -/
-def slotsPer (start count T : Nat) : Nat := (start + count) / T - start
-
-/-- ThermostatParametersStructure.decode for `T ≥ 1` thermostats:
-`[_, start, count] ++ profile slot ++ T × slots`; result (profile, per thermostat items) -/
-def decodeThermostats (msg : List Byte) (T : Nat) :
-    Option (Option Triple × List (Nat × List (Nat × Triple))) := do
-  let start ← msg[1]?
-  let count ← msg[2]?
-  let blocks ← decodeTBlocks msg Gen.thermostat start.toNat (slotsPer start.toNat count.toNat T) 6 0 T
-  pure (unpack msg 3 1, blocks)
-
-structure SchedItem where
-  index : Nat
-  switch : Nat
-  param : Option Triple
-  bits : List Byte
-deriving Repr, DecidableEq, Inhabited
-
-/-- entries of a schedules response: index, switch value, parameter slot, 42 bitmap bytes -/
-def decodeSchedEntries (msg : List Byte) : Nat → Nat → Option (List SchedItem)
-  | _, 0 => some []
-  | off, n + 1 => do
-    let index ← msg[off]?
-    let switch ← msg[off + 1]?
-    let bits := (msg.drop (off + 5)).take Gen.scheduleSize
-    if bits.length < Gen.scheduleSize then none else
-    let rest ← decodeSchedEntries msg (off + 5 + Gen.scheduleSize) n
-    pure (⟨index.toNat, switch.toNat, unpack msg (off + 2) 1, bits⟩ :: rest)
-
-inductive SchedDecode where
-  | short                         -- header missing: `{schedules: []}` only
-  | error                         -- IndexError while reading an entry
-  | ok (items : List SchedItem)
-deriving Repr, Inhabited
-
-def decodeSchedules (msg : List Byte) : SchedDecode :=
-  match msg[1]?, msg[2]? with
-  | some _, some count =>
-    match decodeSchedEntries msg 3 count.toNat with
-    | some items => .ok items
-    | none => .error
-  | _, _ => .short
-
-/-- `schedule_parameters` items in the order the decoder appends them -/
-def schedParamItems : List SchedItem → List (Nat × Triple)
-  | [] => []
-  | s :: rest =>
-    (2 * s.index, (⟨s.switch, 0, 1⟩ : Triple)) ::
-      ((match s.param with | some t => [(2 * s.index + 1, t)] | none => []) ++ schedParamItems rest)
+abbrev slotsPer (start count T : Nat) : Nat := P2.thermoPer start count T
 
 /-! ### handlers -/
 
-/-- `_handle_ecomax_parameters`: a position without description is skipped (`continue`) -/
-def applyEcomaxItems (pt : Product) (old : DS) : DS → List (Nat × Triple) → DS
+/-- the common shape of the four handlers: look the position up in the family's table, build the
+parameter with `mk`, `create_or_update` it; a position without description is skipped
+(`skip = true`: `continue`) or ends the processing (`skip = false`: `return`) -/
+def applyItems (tbl : List Gen.Desc) (mk : Gen.Desc → Nat → P2.Triple → Entry) (skip : Bool) (old : DS) :
+    DS → P2.Params → DS
   | ds, [] => ds
   | ds, (pos, t) :: rest =>
-    match (tableOf pt .ecomax)[pos]? with
-    | none => applyEcomaxItems pt old ds rest
-    | some d => applyEcomaxItems pt old (upsert old ds (newEntry .ecomax d pos t 0 0)) rest
+    match tbl[pos]? with
+    | none => if skip then applyItems tbl mk skip old ds rest else ds
+    | some d => applyItems tbl mk skip old (upsert old ds (mk d pos t)) rest
+
+def mkEcomax (d : Gen.Desc) (pos : Nat) (t : P2.Triple) : Entry := newEntry .ecomax d pos (tr t) 0 0
+def mkMixer (m : Nat) (d : Gen.Desc) (pos : Nat) (t : P2.Triple) : Entry := newEntry .mixer d pos (tr t) m 0
+def mkThermostat (tIdx n : Nat) (d : Gen.Desc) (pos : Nat) (t : P2.Triple) : Entry :=
+  newEntry .thermostat d pos (tr t) tIdx (tIdx * n)
+def mkSchedule (d : Gen.Desc) (pos : Nat) (t : P2.Triple) : Entry := newEntry .schedule d pos (tr t) 0 0
+
+/-- `_handle_ecomax_parameters`: a position without description is skipped (`continue`) -/
+def applyEcomaxItems (pt : Product) (old : DS) : DS → P2.Params → DS :=
+  applyItems (tableOf pt .ecomax) mkEcomax true old
 
 /-- `Mixer._handle_mixer_parameters`: a position without description ends the generator (`return`) -/
-def applyMixerItems (pt : Product) (m : Nat) (old : DS) : DS → List (Nat × Triple) → DS
-  | ds, [] => ds
-  | ds, (pos, t) :: rest =>
-    match (tableOf pt .mixer)[pos]? with
-    | none => ds
-    | some d => applyMixerItems pt m old (upsert old ds (newEntry .mixer d pos t m 0)) rest
+def applyMixerItems (pt : Product) (m : Nat) (old : DS) : DS → P2.Params → DS :=
+  applyItems (tableOf pt .mixer) (mkMixer m) false old
 
 /-- `Thermostat._handle_thermostat_parameters`: offset = thermostat index × number of DEFINED
 parameters of this thermostat in this response (finding F3); positions are known (the decoder
 has already looked every one of them up) -/
-def applyThermostatItems (tIdx n : Nat) (old : DS) : DS → List (Nat × Triple) → DS
-  | ds, [] => ds
-  | ds, (pos, t) :: rest =>
-    match Gen.thermostat[pos]? with
-    | none => ds
-    | some d => applyThermostatItems tIdx n old (upsert old ds (newEntry .thermostat d pos t tIdx (tIdx * n))) rest
+def applyThermostatItems (tIdx n : Nat) (old : DS) : DS → P2.Params → DS :=
+  applyItems Gen.thermostat (mkThermostat tIdx n) false old
 
-def allKnown (tbl : List Gen.Desc) (items : List (Nat × Triple)) : Bool := items.all (fun it => it.1 < tbl.length)
+def allKnown (tbl : List Gen.Desc) (items : P2.Params) : Bool := items.all (fun it => it.1 < tbl.length)
 
 /-- `_add_schedule_parameters`: an index without description raises inside the generator: nothing
 is dispatched; parameters that already existed were updated in place up to that point -/
-def applyScheduleItems (old : DS) (items : List (Nat × Triple)) : DS → DS :=
+def applyScheduleItems (old : DS) (items : P2.Params) : DS → DS :=
   if allKnown Gen.scheduleParams items then
-    fun ds => items.foldl (fun ds it =>
-      match Gen.scheduleParams[it.1]? with
-      | some d => upsert old ds (newEntry .schedule d it.1 it.2 0 0)
-      | none => ds) ds
+    fun ds => applyItems Gen.scheduleParams mkSchedule true old ds items
   else
     fun ds => (items.takeWhile (fun it => it.1 < Gen.scheduleParams.length)).foldl (fun ds it =>
       match Gen.scheduleParams[it.1]? with
-      | some d => updateOnly old ds (newEntry .schedule d it.1 it.2 0 0)
+      | some d => updateOnly old ds (mkSchedule d it.1 it.2)
       | none => ds) ds
 
 structure World where
@@ -242,7 +148,7 @@ structure World where
   mixers : List (Nat × DS) := []
   thermostats : List (Nat × DS) := []
   tAvail : Nat := 0
-  schedules : List (String × List Byte) := []
+  schedules : List (String × List (List Bool)) := []
 deriving Repr, Inhabited
 
 /-- `devices.setdefault(i, Device(i))` then apply `f` to its dataset -/
@@ -256,10 +162,13 @@ inductive Dev where
   | thermostat (i : Nat)
 deriving Repr, DecidableEq, Inhabited
 
+/-- dataset of sub-device `i` -/
+def lookupDev (l : List (Nat × DS)) (i : Nat) : Option DS := (l.find? (fun p => p.1 == i)).map (·.2)
+
 def World.ds (w : World) : Dev → Option DS
   | .ecomax => some w.ecomax
-  | .mixer i => (w.mixers.find? (fun p => p.1 == i)).map (·.2)
-  | .thermostat i => (w.thermostats.find? (fun p => p.1 == i)).map (·.2)
+  | .mixer i => lookupDev w.mixers i
+  | .thermostat i => lookupDev w.thermostats i
 
 def World.setDs (w : World) : Dev → DS → World
   | .ecomax, ds => { w with ecomax := ds }
@@ -300,6 +209,18 @@ def leBytes (v : Nat) : Nat → List Nat
 def suffixSwitch : String := "_schedule_switch"
 def suffixParameter : String := "_schedule_parameter"
 
+/-- Python `s.split(sep, 1)[0]` on character lists: everything before the first occurrence of `sep`
+(the whole string if there is none) -/
+def splitHead (sep : List Char) : List Char → List Char
+  | [] => []
+  | c :: cs => if sep.isPrefixOf (c :: cs) then [] else c :: splitHead sep cs
+
+/-- `SCHEDULES.index(name.split("_schedule_", 1)[0])`; `none` = ValueError -/
+def scheduleIndex (name : String) : Option Nat :=
+  let h := splitHead "_schedule_".toList name.toList
+  let i := Gen.schedules.findIdx (fun s => s.toList == h)
+  if i < Gen.schedules.length then some i else none
+
 /-- `create_request` of a parameter held in world `w` -/
 def requestOf (w : World) (e : Entry) : Option Req :=
   let v := e.triple.value
@@ -313,63 +234,73 @@ def requestOf (w : World) (e : Entry) : Option Req :=
   | .control => if v < 256 then some ⟨.ecomaxControl, [v]⟩ else none
   | .profile => if e.index < 256 ∧ v < 256 then some ⟨.setThermostat, [e.index, v]⟩ else none
   | .schedule =>
-    match Gen.schedules[e.index / 2]? with
+    -- `name.split("_schedule_", 1)[0]`, then `SCHEDULES.index(...)`
+    match scheduleIndex e.name with
     | none => none
-    | some sname =>
-      match find w.ecomax (sname ++ suffixSwitch), find w.ecomax (sname ++ suffixParameter),
-            w.schedules.find? (fun p => p.1 == sname) with
-      | some sw, some par, some (_, bits) =>
-        if sw.triple.value < 256 ∧ par.triple.value < 256 then
-          some ⟨.setSchedule, [1, e.index / 2, sw.triple.value, par.triple.value] ++ bits.map (·.toNat)⟩
-        else none
-      | _, _, _ => none
+    | some si =>
+      match Gen.schedules[si]? with
+      | none => none
+      | some sname =>
+        match find w.ecomax (sname ++ suffixSwitch), find w.ecomax (sname ++ suffixParameter),
+              w.schedules.find? (fun p => p.1 == sname) with
+        | some sw, some par, some (_, days) =>
+          if sw.triple.value < 256 ∧ par.triple.value < 256 then
+            some ⟨.setSchedule, [1, si, sw.triple.value, par.triple.value] ++
+              (days.flatMap (P2.packBits 6)).map (·.toNat)⟩
+          else none
+        | _, _, _ => none
 
-def applyMixers (pt : Product) (mixers : List (Nat × DS)) : List (Nat × List (Nat × Triple)) → List (Nat × DS)
-  | [] => mixers
-  | (m, items) :: rest =>
-    applyMixers pt (updDev mixers m (fun ds => applyMixerItems pt m ds ds items)) rest
+/-- one sub-device block after the other: `devices.setdefault(i, …)`, then the block's items go to
+that sub-device's dataset -/
+def applyBlocks (g : Nat → P2.Params → DS → DS) (devs : List (Nat × DS)) : P2.Blocks → List (Nat × DS)
+  | [] => devs
+  | (i, items) :: rest => applyBlocks g (updDev devs i (g i items)) rest
 
-def applyThermostats (ths : List (Nat × DS)) : List (Nat × List (Nat × Triple)) → List (Nat × DS)
-  | [] => ths
-  | (t, items) :: rest =>
-    applyThermostats (updDev ths t (fun ds => applyThermostatItems t items.length ds ds items)) rest
+def mixerBlock (pt : Product) (m : Nat) (items : P2.Params) (ds : DS) : DS := applyMixerItems pt m ds ds items
+def thermostatBlock (t : Nat) (items : P2.Params) (ds : DS) : DS := applyThermostatItems t items.length ds ds items
+
+def applyMixers (pt : Product) (mixers : List (Nat × DS)) (blocks : P2.Blocks) : List (Nat × DS) :=
+  applyBlocks (mixerBlock pt) mixers blocks
+
+def applyThermostats (ths : List (Nat × DS)) (blocks : P2.Blocks) : List (Nat × DS) :=
+  applyBlocks thermostatBlock ths blocks
 
 def scheduleName (i : Nat) : Option String := Gen.schedules[i]?
 
 def step (pt : Product) (w : World) : Event → World × List Out
   | .ecomaxParams msg =>
-    match decodeEcomax msg with
-    | none => (w, [.decodeError])
-    | some items => ({ w with ecomax := applyEcomaxItems pt w.ecomax w.ecomax items }, [])
+    match P2.decodeEcomax msg with
+    | .error _ => (w, [.decodeError])
+    | .ok (items, _) => ({ w with ecomax := applyEcomaxItems pt w.ecomax w.ecomax items }, [])
   | .mixerParams msg =>
-    match decodeMixers msg with
-    | none => (w, [.decodeError])
-    | some blocks => ({ w with mixers := applyMixers pt w.mixers blocks }, [])
+    match P2.decodeMixer msg with
+    | .error _ => (w, [.decodeError])
+    | .ok (blocks, _) => ({ w with mixers := applyMixers pt w.mixers blocks }, [])
   | .thermostatsAvailable n => ({ w with tAvail := n }, [])
   | .thermostatParams msg =>
-    if w.tAvail = 0 then (w, []) else
-    match decodeThermostats msg w.tAvail with
-    | none => (w, [.decodeError])
-    | some (profile, blocks) =>
+    match P2.decodeThermo (some w.tAvail) msg with
+    | .error _ => (w, [.decodeError])
+    | .ok (.unavailable, _) => (w, [])
+    | .ok (.val profile blocks, _) =>
       let eco := w.ecomax.filter (fun x => !(x.name == Gen.thermostatProfile.name))
       let eco := match profile with
-        | some t => newEntry .profile Gen.thermostatProfile 0 t 0 0 :: eco
+        | some t => newEntry .profile Gen.thermostatProfile 0 (tr t) 0 0 :: eco
         | none => eco
       ({ w with ecomax := eco, thermostats := applyThermostats w.thermostats blocks }, [])
   | .schedules msg =>
-    match decodeSchedules msg with
-    | .error => (w, [.decodeError])
-    | .short => ({ w with schedules := [] }, [])
-    | .ok items =>
+    match P2.decodeSched msg with
+    | .error _ => (w, [.decodeError])
+    | .ok (.short, _) => ({ w with schedules := [] }, [])
+    | .ok (.val ss ps, _) =>
       let scheds :=
-        if items.all (fun s => s.index < Gen.schedules.length) then
+        if ss.all (fun s => s.1 < Gen.schedules.length) then
           -- dict comprehension: a later entry with the same index replaces an earlier one
-          items.foldl (fun acc s =>
-            match scheduleName s.index with
-            | some n => (n, s.bits) :: acc.filter (fun p => !(p.1 == n))
+          ss.foldl (fun acc s =>
+            match scheduleName s.1 with
+            | some n => (n, s.2) :: acc.filter (fun p => !(p.1 == n))
             | none => acc) []
         else w.schedules
-      ({ w with schedules := scheds, ecomax := applyScheduleItems w.ecomax (schedParamItems items) w.ecomax }, [])
+      ({ w with schedules := scheds, ecomax := applyScheduleItems w.ecomax ps w.ecomax }, [])
   | .state on =>
     let e := newEntry .control Gen.ecomaxControl 0 ⟨if on then 1 else 0, 0, 1⟩ 0 0
     ({ w with ecomax := upsert w.ecomax w.ecomax e }, [])
